@@ -4,6 +4,7 @@ import (
 	"bytes"
 	"errors"
 	"fmt"
+	"io"
 	"reflect"
 
 	"github.com/philpearl/avro"
@@ -27,8 +28,12 @@ type C16Plan struct {
 	// filewriter: op = number of payload bytes of the block (rows = op%7).
 	Ops      []int  `json:"ops"`
 	SyncSeed uint64 `json:"sync_seed"`
-	// Faults: explicit (k, kind) cases; nil = enumerate every k x 4 variants.
+	// Faults: explicit (k, kind) cases; nil = enumerate every k x 5 variants.
 	Faults []WFault `json:"faults,omitempty"`
+	// Flusher: the destination also has a Flush() error method.
+	Flusher bool `json:"flusher,omitempty"`
+	// PathErr: injected errors are *fs.PathError values wrapping the sentinel.
+	PathErr bool `json:"path_err,omitempty"`
 }
 
 type c16Prop struct{}
@@ -63,7 +68,7 @@ func (c16Prop) Assumptions() []string {
 
 func (c16Prop) Generate(seed uint64, idx int, tier string) *Plan {
 	r := NewRng(seed, uint64(idx)<<8|0x16)
-	pl := &C16Plan{Codec: r.Pick(codecNames), VSeed: r.Uint64(), VClass: r.PickInt([]int{0, 1, 1, 2, 3}), SyncSeed: r.Uint64()}
+	pl := &C16Plan{Codec: r.Pick(codecNames), VSeed: r.Uint64(), VClass: r.PickInt([]int{0, 1, 1, 2, 3}), SyncSeed: r.Uint64(), Flusher: r.P(1, 4), PathErr: r.P(1, 3)}
 	if r.P(1, 4) {
 		pl.API = "filewriter"
 		n := r.Range(0, 6)
@@ -104,13 +109,18 @@ func (c16Prop) Generate(seed uint64, idx int, tier string) *Plan {
 type c16Call struct {
 	Kind string // new | encode | flush | header | block
 	Err  error
-	// writes issued during the call: [W0, W1)
+	// writes issued during the call: [W0, W1); destination flushes: [F0, F1)
 	W0, W1 int
+	F0, F1 int
 }
 
 // c16Run executes the history; it stops after the first call that returns an
 // error. A panic is returned as such.
 func c16Run(pl *C16Plan, w *DiskWriter) (calls []c16Call, panicked any, site string) {
+	var dst io.Writer = w
+	if pl.Flusher {
+		dst = FlushWriter{w}
+	}
 	defer func() {
 		if p := recover(); p != nil {
 			panicked = p
@@ -119,9 +129,10 @@ func c16Run(pl *C16Plan, w *DiskWriter) (calls []c16Call, panicked any, site str
 	}()
 	pinSync(pl.SyncSeed)
 	rec := func(kind string, f func() error) bool {
-		c := c16Call{Kind: kind, W0: w.Writes}
+		c := c16Call{Kind: kind, W0: w.Writes, F0: w.Flushes}
 		c.Err = f()
 		c.W1 = w.Writes
+		c.F1 = w.Flushes
 		calls = append(calls, c)
 		return c.Err == nil
 	}
@@ -137,7 +148,7 @@ func c16Run(pl *C16Plan, w *DiskWriter) (calls []c16Call, panicked any, site str
 		vals := GenValues(d.Type, nvals, pl.VSeed, pl.VClass)
 		var e EncHandle
 		if !rec("new", func() (err error) {
-			e, err = d.NewEnc(w, avro.Compression(pl.Codec), pl.BlockSize)
+			e, err = d.NewEnc(dst, avro.Compression(pl.Codec), pl.BlockSize)
 			return err
 		}) {
 			return
@@ -163,7 +174,7 @@ func c16Run(pl *C16Plan, w *DiskWriter) (calls []c16Call, panicked any, site str
 		}) {
 			return
 		}
-		if !rec("header", func() error { return fw.WriteHeader(w) }) {
+		if !rec("header", func() error { return fw.WriteHeader(dst) }) {
 			return
 		}
 		for _, op := range pl.Ops {
@@ -181,7 +192,7 @@ func c16Run(pl *C16Plan, w *DiskWriter) (calls []c16Call, panicked any, site str
 					blk[i] = byte(r.Intn(7)) // compressible
 				}
 			}
-			if !rec("block", func() error { return fw.WriteBlock(w, op%7, blk) }) {
+			if !rec("block", func() error { return fw.WriteBlock(dst, op%7, blk) }) {
 				return
 			}
 		}
@@ -219,6 +230,9 @@ func (c16Prop) Execute(p *Plan, run *Run) any {
 
 	faults := pl.Faults
 	if faults == nil {
+		for j := 0; j < base.Flushes; j++ {
+			faults = append(faults, WFault{Kind: "flusherr", K: j})
+		}
 		for k := 0; k < W; k++ {
 			faults = append(faults, WFault{Kind: "err", K: k}, WFault{Kind: "short", K: k, Short: 1}, WFault{Kind: "short", K: k, Short: base.Lens[k] / 2}, WFault{Kind: "short", K: k, Short: -1}, WFault{Kind: "fullerr", K: k})
 		}
@@ -230,6 +244,35 @@ func (c16Prop) Execute(p *Plan, run *Run) any {
 
 	for _, f := range faults {
 		f := f
+		if pl.PathErr {
+			f.Flavour = "patherror"
+		}
+		if f.Kind == "flusherr" {
+			// only code that chooses to flush its destination gets here
+			w := &DiskWriter{Fault: &f}
+			fc, pan, site := c16Run(pl, w)
+			run.Evals++
+			run.Log.Add("flush j=%d calls=%d fired=%v", f.K, len(fc), w.Fired)
+			q := p.clone()
+			q.C16.Faults = []WFault{f}
+			if pan != nil {
+				run.Violation("c16/panic", site, fmt.Sprintf("destination Flush #%d failed: panic: %v", f.K, pan), q)
+				return nil
+			}
+			if !w.Fired {
+				continue
+			}
+			run.Faults.Inc("W-flusherr")
+			for _, c := range fc {
+				if c.F0 <= f.K && f.K < c.F1 {
+					if c.Err == nil || !errors.Is(c.Err, w.Injected) {
+						run.Violation("c16/error-swallowed", c.Kind+"/flush", fmt.Sprintf("the %s call flushed its destination (a writer with a Flush method); that Flush failed with %q and the call returned %q", c.Kind, w.Injected, errString(c.Err)), q)
+						return nil
+					}
+				}
+			}
+			continue
+		}
 		if f.K >= W {
 			continue
 		}
@@ -279,7 +322,7 @@ func (c16Prop) Execute(p *Plan, run *Run) any {
 		if kind == "encode" {
 			kind = "encode(size-triggered)"
 		}
-		run.Sig("%s|%s|%s|%s|%s", pl.API, kind, role, variant, pl.Codec)
+		run.Sig("%s|%s|%s|%s|%s|patherr:%v", pl.API, kind, role, variant, pl.Codec, pl.PathErr)
 		for i := 0; i < ci; i++ {
 			if fc[i].Err != nil {
 				run.Infra(fmt.Sprintf("%s: call %d (%s) failed before the fault fired: %v", desc, i, fc[i].Kind, fc[i].Err))
@@ -291,7 +334,7 @@ func (c16Prop) Execute(p *Plan, run *Run) any {
 			run.Violation("c16/error-swallowed", fc[ci].Kind+"/"+role, fmt.Sprintf("%s, but the %s call that issued it returned nil", desc, fc[ci].Kind), narrow())
 			return nil
 		}
-		if !errors.Is(err, ErrInjected) {
+		if !errors.Is(err, w.Injected) || !errors.Is(err, ErrInjected) {
 			run.Violation("c16/error-not-wrapped", fc[ci].Kind+"/"+role, fmt.Sprintf("%s; the %s call returned %q which does not wrap the writer's error", desc, fc[ci].Kind, err), narrow())
 			return nil
 		}
